@@ -749,7 +749,8 @@ func (ls *linearSearch) Process(
 	for i := 0; i < concurrencyFactor; i++ {
 		blockStart := i * blockSize
 		blockEnd := (i + 1) * blockSize
-		if i == concurrencyFactor-1 {
+		if i == concurrencyFactor-1 || blockEnd > ls.limit {
+			// the blocks never leave [0, limit), whatever the number of workers is
 			blockEnd = ls.limit
 		}
 
